@@ -69,6 +69,10 @@ func (u *Unit) newFrame(fn *ssa.Function, c *Contract, depth int) *Frame {
 	f := &Frame{u: u, fn: fn, contract: c, vals: map[ssa.Value]Val{}, endCur: map[int]string{}, endHeap: map[int]*Heap{}, reach: map[int]string{}, depth: depth,
 		backEdges: map[[2]int]bool{}, loopOrd: map[int]int{}, loopInfo: map[int]*loopState{}, escaped: map[ssa.Value]bool{}, allocRefs: map[ssa.Value]string{}}
 	f.fname = funcDisplayName(fn)
+	if depth > 0 {
+		// obligations raised inside inlined callees belong to the function under contract
+		f.fname = u.Name
+	}
 	return f
 }
 
